@@ -27,6 +27,7 @@
 (*          use, keys written to the logger                                *)
 (*   Q      n, trig, a, b    Gaussian number n is trig of coordinates a, b *)
 (*   Out    name, i, leaves  data dependencies of a returned quantity      *)
+(*          masses, shifts   kinematic arguments (edges) that flow into it *)
 (* Steps of the machine that leave no event (LastEdge, Assign, Rescale,    *)
 (* Decompose, UVectors .. Return) are taken silently between events; they are          *)
 (* deterministic, so the search stays linear in the length of the trace.   *)
@@ -48,7 +49,7 @@ GraphOf(r) == [edges |-> r.edges, mass |-> r.mass, w |-> r.w, wd |-> r.wd,
                ext |-> {r.ext[i] : i \in 1..Len(r.ext)}, D |-> r.D]
 SetOfSeq(s) == {s[i] : i \in 1..Len(s)}
 
-TInit == /\ InitCall(NoGraph, NoTab, [stab |-> FALSE, debug |-> FALSE, meta |-> FALSE])
+TInit == /\ InitCall(NoGraph, NoTab, [stab |-> FALSE, debug |-> FALSE, meta |-> FALSE, massargs |-> {}, loopedges |-> {}])
          /\ l = 1 /\ rl = 0
 
 IsEvent(e) == l <= Len(Rec) /\ Rec[l].ev = e /\ l' = l + 1
@@ -58,7 +59,8 @@ Idle == pc = "done" \/ NE(g) = 0       \* no call in progress
 TReset ==
    /\ IsEvent("Reset") /\ Idle /\ rl' = l
    /\ LET gr == GraphOf(Rec[l].g)
-      IN StartCall(gr, IF gr = g THEN tab ELSE FullTable(gr), [stab |-> Rec[l].stab, debug |-> Rec[l].debug, meta |-> Rec[l].meta])
+      IN StartCall(gr, IF gr = g THEN tab ELSE FullTable(gr), [stab |-> Rec[l].stab, debug |-> Rec[l].debug, meta |-> Rec[l].meta,
+                        massargs |-> SetOfSeq(Rec[l].margs), loopedges |-> SetOfSeq(Rec[l].loopedges)])
 
 \* inverse-CDF rule on exact rationals: with cumulative sums c_1 < ... < c_n = 1 and u on a lattice,
 \* taking edge k is legal iff  c_(k-1) <= u <= c_k   (equality = exact tie: the rounded sum may fall
@@ -127,6 +129,10 @@ TOut ==
    /\ IsEvent("Out") /\ Same /\ pc = "done" /\ out = "Ok"
    /\ SetOfSeq(Rec[l].leaves) \subseteq Allowed(Rec[l].name, Rec[l].i)
    /\ (Rec[l].name \in {"u", "v", "jac"} /\ E >= 2) => SetOfSeq(Rec[l].leaves) # {}
+   \* kinematic arguments that flow into the quantity: exactly those of the definition (Sample!KinMasses, KinShiftsMin / Max)
+   /\ Rec[rl].kin => /\ SetOfSeq(Rec[l].masses) = KinMasses(Rec[l].name)
+                     /\ KinShiftsMin(Rec[l].name) \subseteq SetOfSeq(Rec[l].shifts)
+                     /\ SetOfSeq(Rec[l].shifts) \subseteq KinShiftsMax(Rec[l].name)
    /\ UNCHANGED vars
 
 \* tolerated freedom of the implementation: the matrix decomposition may be done after the Gamma draw (the
